@@ -11,14 +11,17 @@
    the history is reported instead of silently trusted.
    Every query step carries one result per execution variant; each is judged
    separately and failures are collected in `bad` as
-     <<position, scenario, step, variant index, clause, <<base mode, filter mode, fast>>>>.  *)
+     <<position, scenario, step, variant index, clause, <<base mode, filter mode, fast>>>>.
+   Answers of modes that do not claim exactness (partial probing) are judged for
+   visibility only; duplicates, more than k rows and rows outside the index under
+   fast search are collected in `info` as observations.                         *)
 EXTENDS VectorQueryOps, Json, IOUtils, SequencesExt
 
 Rec == ndJsonDeserialize(IOEnv.TRACE)
 N   == Len(Rec)
 
-VARIABLES l, T, ever, data, model, metric, hasIndex, nparts, scn, bad, cnt
-tvars == <<l, T, ever, data, model, metric, hasIndex, nparts, scn, bad, cnt>>
+VARIABLES l, T, ever, data, model, metric, hasIndex, nparts, scn, bad, info, cnt
+tvars == <<l, T, ever, data, model, metric, hasIndex, nparts, scn, bad, info, cnt>>
 
 SeqToSet(s) == {s[i] : i \in 1..Len(s)}
 IsErr(P) == "error" \in DOMAIN P
@@ -55,6 +58,11 @@ JudgeResult(st, r) ==
   ELSE IF ~AllDefined(Q) THEN {}
   ELSE Judge(T, ever, Q, hasIndex, r.rows)
 
+\* observations about answers of modes that do not claim exactness (reported, not judged)
+ObserveResult(st, r) ==
+  LET Q == QueryOf(st, r.variant) IN
+  IF r.res # "ok" \/ ~AllDefined(Q) THEN {} ELSE Observe(T, Q, hasIndex, r.rows)
+
 \* counters describing what one variant result exercised
 Facts(st, r) ==
   LET v == r.variant
@@ -75,7 +83,7 @@ Facts(st, r) ==
      \cup (IF tie THEN {"ties_at_boundary"} ELSE {})
 
 Init == /\ l = 1 /\ T = {} /\ ever = {} /\ data = <<>> /\ model = {} /\ metric = "l2" /\ hasIndex = FALSE /\ nparts = 0
-        /\ scn = 0 /\ bad = <<>> /\ cnt = [n \in Counters |-> 0]
+        /\ scn = 0 /\ bad = <<>> /\ info = <<>> /\ cnt = [n \in Counters |-> 0]
 
 StepRows(st) == {[key |-> st.rows[i][1], vec |-> <<st.rows[i][2], st.rows[i][3]>>, val |-> st.rows[i][4]] : i \in 1..Len(st.rows)}
 
@@ -101,7 +109,9 @@ Step(e) ==
                 \cup (IF ~ok /\ op # "query" THEN {<<l, e.scn, e.i, 0, "StepFailed", <<op, e.res, "">>>>} ELSE {})
                 \cup UNION {{<<l, e.scn, e.i, j, c, ModeOf(st, results[j].variant)>> : c \in verdicts[j]} : j \in 1..Len(results)}
       facts == [j \in 1..Len(results) |-> Facts(st, results[j]) \cup (IF verdicts[j] = {} THEN {"accepted"} ELSE {})]
+      newinfo == UNION {{<<l, e.scn, e.i, j, c, ModeOf(st, results[j].variant)>> : c \in ObserveResult(st, results[j])} : j \in 1..Len(results)}
   IN /\ bad' = IF newbad = {} \/ Len(bad) >= 300 THEN bad ELSE bad \o SetToSeq(newbad)
+     /\ info' = IF newinfo = {} \/ Len(info) >= 100 THEN info ELSE info \o SetToSeq(newinfo)
      /\ T' = obs
      /\ ever' = ever \cup {w.key : w \in written} \cup Keys(obs)
      /\ data' = data1
@@ -116,9 +126,9 @@ Next == /\ l <= N /\ l' = l + 1
         /\ LET e == Rec[l] IN
            IF e.ev = "reset"
            THEN /\ T' = {} /\ ever' = {} /\ data' = <<>> /\ model' = {} /\ metric' = e.metric /\ hasIndex' = FALSE
-                /\ nparts' = 0 /\ scn' = e.scn /\ bad' = bad /\ cnt' = Bump(cnt, {"scenarios"})
+                /\ nparts' = 0 /\ scn' = e.scn /\ bad' = bad /\ info' = info /\ cnt' = Bump(cnt, {"scenarios"})
            ELSE Step(e)
 TraceSpec == Init /\ [][Next]_tvars
-Report == (l = N + 1) => PrintT(<<"REPORT", ToJson([events |-> N, bad |-> bad, counts |-> cnt])>>)
+Report == (l = N + 1) => PrintT(<<"REPORT", ToJson([events |-> N, bad |-> bad, info |-> info, counts |-> cnt])>>)
 TraceAccepted == TLCGet("stats").diameter = N + 1
 =============================================================================
